@@ -184,6 +184,9 @@ def facts(U, root):
     if d["kind"] == "enum":
         tg = d["tag"] if isinstance(d["tag"], str) else list(d["tag"])[0]
         if tg in ("external", "adjacent") and any(v["kind"] == "struct" for v in d["variants"]): F.add("root_enum_struct_variant")
+        # the same finding's other shape: `oneOf[object, null]` at the root (an untagged enum of a struct variant and a unit variant)
+        if tg == "untagged" and any(v["kind"] == "struct" for v in d["variants"]) and any(v["kind"] == "unit" for v in d["variants"]):
+            F.add("root_enum_struct_variant")
     acc = set()
     for n in R:
         if n != root or True:
